@@ -65,6 +65,25 @@ def stable_dump(node, positions=True):
     return repr(node)
 
 
+def _stack_depth():
+    f = sys._getframe()
+    n = 0
+    while f is not None:
+        n += 1
+        f = f.f_back
+    return n
+
+
+def at_depth(fn, target=160):
+    """call fn() with exactly `target` Python frames below it, whatever the caller's own depth (main thread, worker thread, forked child):
+    near the recursion limit the outcome of a parse legitimately depends on the stack that is left, so comparisons of the same input must
+    start from the same depth"""
+    def rec():
+        return fn() if _stack_depth() >= target else rec()
+
+    return rec()
+
+
 class CaseTimeout(BaseException):
     """wall-clock watchdog of one call: inconclusive, never a violation"""
 
